@@ -81,7 +81,7 @@ def stToJson (s : St) : Json :=
     ("pc", Json.str (match s.pc with | .notStarted => "notStarted" | .suspendedAt _ _ => "suspended" | .done => "done")),
     ("k", nat s.delivered),
     ("out", Json.str (match s.out with | .none => "none" | .yielded => "yielded" | .stopped => "stopped" | .raised => "raised")),
-    ("fds", arr ((fdsOpen s).map nat)),
+    ("fds", arr ((fdsOpen (workbookSharesFd Gen.withFrames) s).map nat)),
     ("open", arr (s.opn.map handleToJson)),
     ("tb", arr (s.tb.map handleToJson)),
     ("callerClosed", arr ((callerClosed s).map nat)),
@@ -90,7 +90,7 @@ def stToJson (s : St) : Json :=
 def frameToJson : Frame → Json
   | .withs cs => arr (cs.map fun c => Json.str (match c with
       | .openIfPath => "openIfPath" | .closingWorkbook => "closingWorkbook" | .closingRows => "closingRows"
-      | .openPath => "openPath"))
+      | .openPath => "openPath" | .closingWorkbookByPath => "closingWorkbookByPath"))
   | .bareOpen => Json.str "bareOpen"
   | .explicitClose => Json.str "explicitClose"
   | .unknown => Json.str "unknown"
